@@ -783,6 +783,25 @@ theorem matched_partition (E : Env α β) (sel : α → Option (Peak α)) (serie
   rw [hsum, hlen]
   exact List.length_filter_le _ _
 
+/-- **C04.longest_le_matched** — for every environment, selector, ion-kind set and charge limit the reported
+ladder lengths never exceed the matched counts of their terminus: `longest_b ≤ matched_b`, `longest_y ≤ matched_y`
+(each ladder step consumes at least one matched (ion, charge) pair of that terminus). -/
+theorem longest_le_matched (E : Env α β) (sel : α → Option (Peak α)) (series : List (Kind × List α))
+    (n mfc : Nat) (openms annotate : Bool) :
+    let s := scoreCandidate E sel series n mfc openms annotate
+    s.longestB ≤ s.matchedB ∧ s.longestY ≤ s.matchedY := by
+  have h := scoreCandidate_spec E sel series n mfc openms annotate
+  simp only at h
+  obtain ⟨h1, h2, -, -, h5, h6, -⟩ := h
+  simp only
+  rw [h1, h2, h5, h6]
+  simp only [specVals, runFold]
+  constructor
+  · have := foldl_bounds (((specMatches E sel (fragCharges series mfc)).filter (·.fz.kind.isN)).map (·.fz.idx)) {}
+    simpa using this
+  · have := foldl_bounds (((specMatches E sel (fragCharges series mfc)).filter (fun m => !m.fz.kind.isN)).map (·.fz.idx)) {}
+    simpa using this
+
 /-- **C04.hyperscore_def** — for EVERY environment (every `ln`, every arithmetic) the hyperscore
 `score_candidate` stores (score type `SageHyperScore`) is the pinned function
 `ln((Ib+1)·(Iy+1)) + lnfact(nb) + lnfact(ny)` of the naive counts `nb, ny` and intensity sums `Ib, Iy` of the
